@@ -367,20 +367,17 @@ impl<K: Hash + Eq, V, FH: BuildHasher, RH: BuildHasher> Cache<K, V>
         }
 
         // check if the value is already in probationary segment and move it to protected segment
-        if self.probationary.contains(&k) {
-            return self
-                .probationary
-                .remove_and_return_ent(&k)
-                .and_then(|mut ent| {
-                    unsafe {
-                        let ent_ptr = ent.as_mut();
-                        swap_value(&mut v, ent_ptr);
-                    }
-                    self.protected
-                        .put_or_evict_nonnull(ent)
-                        .map(|evicted_ent| self.probationary.put_nonnull(evicted_ent))
-                })
-                .unwrap_or(PutResult::<K, V>::Update(v));
+        if let Some(mut ent) = self.probationary.remove_and_return_ent(&k) {
+            unsafe {
+                let ent_ptr = ent.as_mut();
+                swap_value(&mut v, ent_ptr);
+            }
+            // the entry demoted from a full protected segment goes back to probationary
+            // (which has room: we just took one out); the result is an update in either case
+            if let Some(evicted_ent) = self.protected.put_or_evict_nonnull(ent) {
+                self.probationary.put_nonnull(evicted_ent);
+            }
+            return PutResult::Update(v);
         }
 
         // this is a new entry
